@@ -187,6 +187,71 @@ KF21(impl, st, c) ==
     IF Both(impl) /\ c.op = "seek" /\ ValidH(st, c) /\ H(st, c).open /\ H(st, c).dir
     THEN {Dev("KF21", Ok(st), "ok", FALSE)} ELSE {}
 
+(* KF22  avfs.ToOpenMode decodes the access mode wrongly when O_RDONLY is combined with another flag:
+         the handle gets no read access, and write access iff O_CREATE, O_APPEND or O_TRUNC is present
+         (so Write/Truncate work on a handle opened O_RDONLY|O_CREATE, Read fails with EBADF, and a
+         directory opened O_RDONLY|O_APPEND is refused with EISDIR).
+   KF24  O_APPEND is implemented as a single seek to the end at open time (MemFS, OrefaFS): afterwards the
+         handle is an ordinary one - Seek moves the write position, two appenders overwrite each other,
+         WriteAt is accepted.
+   Both concern the one code site that opens a file, so they are modelled together: the outcome is
+   labelled with the finding(s) it needs. *)
+OddAccess(c) == HasFlag(c, "RDONLY") /\ Len(c.flag) > 1
+ImplOpen(st, c, acc, app) ==
+    LET o == OpenCore(st, c) IN
+    IF o.id = 0 THEN {}
+    ELSE IF acc /\ IsDir(o.st, o.id) /\ (HasFlag(c, "APPEND")) THEN {Fail("EISDIR", st)}
+    ELSE
+    LET h0 == Handle(o.id, c, IsDir(o.st, o.id))
+        h1 == IF acc THEN [h0 EXCEPT !.rd = FALSE, !.wr = HasFlag(c, "CREATE") \/ HasFlag(c, "APPEND") \/ HasFlag(c, "TRUNC")]
+              ELSE h0
+        h2 == IF app /\ h1.app /\ ~h1.dir THEN [h1 EXCEPT !.app = FALSE, !.off = Len(o.st.ino[o.id].data)] ELSE h1 IN
+    IF c.op = "openclose" THEN {[res |-> o.res, st |-> o.st]}
+    ELSE {Ret([R0 EXCEPT !.n = Len(st.h) + 1], [o.st EXCEPT !.h = Append(@, h2)])}
+
+KF22(impl, st, c) ==
+    IF Both(impl) /\ c.op \in {"open", "openclose"} /\ OddAccess(c)
+    THEN {Dev("KF22", o, "ok", FALSE) : o \in ImplOpen(st, c, TRUE, FALSE)} ELSE {}
+KF24(impl, st, c) ==
+    IF Both(impl) /\ c.op = "open" /\ HasFlag(c, "APPEND")
+    THEN {Dev("KF24", o, "ok", FALSE) : o \in ImplOpen(st, c, FALSE, TRUE)} ELSE {}
+KF22and24(impl, st, c) ==
+    IF Both(impl) /\ c.op = "open" /\ HasFlag(c, "APPEND") /\ OddAccess(c) /\ {"KF22", "KF24"} \subseteq OpenKF
+    THEN {Dev("KF22+KF24", o, "ok", FALSE) : o \in ImplOpen(st, c, TRUE, TRUE)} ELSE {}
+
+(* KF25  Read and ReadAt check their arguments in another order than os.File and report end of file for
+         an empty buffer: Read(len 0) answers EOF (nil expected); ReadAt on a directory answers EISDIR
+         before looking at a negative offset; ReadAt(len 0) beyond the end answers EOF. *)
+ImplRead(st, c) ==
+    LET h == H(st, c) IN
+    IF h.dir THEN Fail("EISDIR", st)
+    ELSE IF ~h.rd THEN Fail("EBADF", st)
+    ELSE IF c.n = 0 THEN Fail("EOF", st)
+    ELSE Read(st, c)
+ImplReadAt(st, c) ==
+    LET h == H(st, c) IN
+    IF h.dir THEN Fail("EISDIR", st)
+    ELSE IF c.off < 0 THEN Fail("NEGOFF", st)
+    ELSE IF ~h.rd THEN Fail("EBADF", st)
+    ELSE IF c.off > Len(Node(st, c).data) THEN Fail("EOF", st)
+    ELSE ReadAt(st, c)
+KF25(impl, st, c) ==
+    IF Both(impl) /\ c.op \in {"read", "readat"} /\ ValidH(st, c) /\ H(st, c).open
+    THEN {Dev("KF25", IF c.op = "read" THEN ImplRead(st, c) ELSE ImplReadAt(st, c), "ok", FALSE)} ELSE {}
+
+(* KF27  The cursor of a directory handle restarts (MemFS, OrefaFS): ReadDir/Readdirnames with n <= 0 always
+         return the complete current listing (os.File: the REMAINING entries, then nothing), and after the
+         io.EOF that ends a batched read the next call starts over from the beginning. *)
+KF27(impl, st, c) ==
+    IF Both(impl) /\ c.op \in {"freaddir", "freaddirnames"} /\ ValidH(st, c) /\ H(st, c).open /\ H(st, c).dir THEN
+        LET h == H(st, c)
+            rewound == SetH(st, c, [h EXCEPT !.dstart = FALSE, !.dleft = {}])
+            all == DOMAIN Node(st, c).ent IN
+        IF c.n <= 0 THEN {Dev("KF27", Ret([R0 EXCEPT !.n = Cardinality(all), !.names = all], rewound), "ok", FALSE)}
+        ELSE IF DirLeft(st, c) = {} THEN {Dev("KF27", Ret([R0 EXCEPT !.err = "EOF"], rewound), "ok", FALSE)}
+        ELSE {}
+    ELSE {}
+
 \* DEVIATIONS-END
 
 KFTable(impl, st, c) ==
@@ -194,9 +259,10 @@ KFTable(impl, st, c) ==
      KF04 |-> KF04(impl, st, c), KF05 |-> KF05(impl, st, c), KF06 |-> KF06(impl, st, c),
      KF07 |-> KF07(impl, st, c), KF08 |-> KF08(impl, st, c), KF10 |-> KF10(impl, st, c),
      KF11 |-> KF11(impl, st, c), KF12 |-> KF12(impl, st, c), KF13 |-> KF13(impl, st, c),
-     KF14 |-> KF14(impl, st, c), KF21 |-> KF21(impl, st, c)]
+     KF14 |-> KF14(impl, st, c), KF21 |-> KF21(impl, st, c), KF22 |-> KF22(impl, st, c) \cup KF22and24(impl, st, c),
+     KF24 |-> KF24(impl, st, c), KF25 |-> KF25(impl, st, c), KF27 |-> KF27(impl, st, c)]
 
-AllKF == {"KF01", "KF02", "KF03", "KF04", "KF05", "KF06", "KF07", "KF08", "KF10", "KF11", "KF12", "KF13", "KF14", "KF21"}
+AllKF == {"KF01", "KF02", "KF03", "KF04", "KF05", "KF06", "KF07", "KF08", "KF10", "KF11", "KF12", "KF13", "KF14", "KF21", "KF22", "KF24", "KF25", "KF27"}
 
 DevOutcomes(impl, st, c) ==
     LET t == KFTable(impl, st, c) IN UNION {t[k] : k \in (OpenKF \cap DOMAIN t)}
